@@ -128,8 +128,8 @@ def spec_strategy(heavy: bool):
         optional={
             'solver': solver,
             'throw': st.booleans(),
-            'options': st.sampled_from(['E', 'P', 'Y', 'PY', 'S'] if heavy else ['E', 'P', 'S']),
-            'callback': st.sampled_from(['u', 'u', 'u', 'k0', 'k1', 'D', 'R'] if heavy else ['u', 'u', 'k0', 'k1']),
+            'options': st.sampled_from(['E', 'P', 'Y', 'PY', 'S', 'Z'] if heavy else ['E', 'P', 'S', 'Z']),
+            'callback': st.sampled_from(['u', 'u', 'u', 'k0', 'k1', 'D', 'R'] if heavy else ['u', 'u', 'k0', 'k1', 'D']),
         },
     ).filter(lambda d: len(d) >= 1)
     small = st.integers(0, 7)
@@ -182,6 +182,7 @@ def spec_strategy(heavy: bool):
             'p_line': st.sampled_from([0.02, 0.1, 0.3, 0.6]),
             'pct_depth': st.integers(1, 3),
             'fine': st.booleans(),
+            'ultra': st.booleans(),
             'park_cb': st.booleans() if heavy else st.just(False),
             'share': st.booleans(),
             'jit': st.just(heavy),
